@@ -15,6 +15,7 @@ Clauses (C12), checked per parent against a census computed from the generated d
   down-sampled table).
 """
 import itertools
+import os
 import json
 import random
 
@@ -257,6 +258,60 @@ CLAUSES = [
 ]
 
 
+CL_DROP = ("query marker selection with drop_level (entry point create_marker_gene_lookup_from_ref_list): the table has exactly "
+           "one entry per parent of the taxonomy WITHOUT that level, and the entry of a parent whose children changed is "
+           "selected for its new children (equal to the selection on a reference that never had the level)")
+
+
+def row_drop_level(tier, seed):
+    from bounded import fixture as fx
+    import traceback
+    from cell_type_mapper.type_assignment.marker_cache_v2 import create_marker_gene_lookup_from_ref_list
+    from cell_type_mapper.diff_exp.markers import find_markers_for_all_taxonomy_pairs
+    import h5py
+    row = new_row('cell_type_mapper.type_assignment.marker_cache_v2.create_marker_gene_lookup_from_ref_list#drop_level',
+                  'seeded-random', "shapes d3_bal, d3_chain (+ d3_reuse, d3_slash in thorough) x every droppable level", [CL_DROP])
+    shapes = ['d3_bal', 'd3_chain'] + ([] if tier == 'quick' else ['d3_reuse', 'd3_slash', 'd2_bal'])
+    try:
+        with fx.scratch() as d:
+            for i, shape in enumerate(shapes):
+                world = fx.build_world(d, int(seed) + 40 + i, taxonomy=shape, n_query=6)
+                genes = list(world.query_gene_names)
+                for lv in world.hierarchy[:-1]:
+                    row['cases'] += 1
+                    args = dict(shape=shape, drop_level=lv, seed=int(seed) + 40 + i)
+                    red = fx.reduced_world(world, drop_level=lv)
+                    ref2 = os.path.join(red.workdir, 'reference_markers.h5')
+                    with quiet():
+                        from cell_type_mapper.taxonomy.taxonomy_tree import TaxonomyTree
+                        find_markers_for_all_taxonomy_pairs(
+                            precomputed_stats_path=red.precomputed_path, taxonomy_tree=TaxonomyTree(data=red.tree),
+                            output_path=ref2, tmp_dir=os.path.join(red.workdir, 'tmp'), n_processors=1, max_gb=1,
+                            n_valid=min(10, world.n_genes))
+                        with h5py.File(ref2, 'a') as f:
+                            if 'metadata' in f:
+                                del f['metadata']
+                            f.create_dataset('metadata', data=json.dumps({'precomputed_path': red.precomputed_path}).encode('utf-8'))
+                        kw = dict(query_gene_names=genes, n_per_utility=3, n_per_utility_override=None, n_processors=1,
+                                  behemoth_cutoff=5000000, tmp_dir=os.path.join(red.workdir, 'tmp'))
+                        got = create_marker_gene_lookup_from_ref_list(
+                            reference_marker_path_list=[world.reference_marker_path], drop_level=lv, **kw)
+                        want = create_marker_gene_lookup_from_ref_list(
+                            reference_marker_path_list=[ref2], drop_level=None, **kw)
+                    got = {k: sorted(v) for k, v in got.items() if k not in ('metadata', 'log')}
+                    want = {k: sorted(v) for k, v in want.items() if k not in ('metadata', 'log')}
+                    row['accepted'] += 1
+                    note_case(row, args)
+                    if got != want:
+                        diff = sorted(k for k in set(got) | set(want) if got.get(k) != want.get(k))
+                        add_failure(row, CL_DROP, 'ensures', args,
+                                    f"differs for {diff[:4]}: with drop_level { {k: got.get(k) for k in diff[:2]} }; on the "
+                                    f"reference without the level { {k: want.get(k) for k in diff[:2]} }")
+    except BaseException:   # noqa
+        add_error(row, traceback.format_exc()[-1500:])
+    return finish_row(row)
+
+
 def run(tier='quick', seed=0, jobs=1):
     n = 50 if tier == 'quick' else 500
     row = new_row(FN, 'seeded-random end-to-end (real select_all_markers vs census from the generated tables)',
@@ -279,7 +334,7 @@ def run(tier='quick', seed=0, jobs=1):
             add_failure(row, clause, 'unexpected-exception', res['key'], observed)
         for clause, observed in res['failures']:
             add_failure(row, clause, 'ensures', res['key'], observed)
-    return [finish_row(row)]
+    return [finish_row(row), row_drop_level(tier, seed)]
 
 
 if __name__ == '__main__':
